@@ -231,7 +231,12 @@ class _Builder(object):
             as_bytes = (kind in ir.ARRAY_KINDS and self.o.allow_bytes and self.draw(st.integers(0, 4)) == 0 and
                         (self.o.nonfixed_bytes or kind == FIXARR))
             if kind == PLAIN:
-                t = self.pick_type(UNLIMITED if (last and self.o.allow_greedy) else DYNAMIC)
+                unl = [u for u, st_ in self.stiff.items() if st_ == UNLIMITED]
+                if last and self.o.allow_greedy and unl and self.draw(st.integers(0, 2)) == 0:
+                    # a nested unlimited struct as the tail (the only place it may stand) - otherwise rare
+                    t = self.draw(st.sampled_from(unl))
+                else:
+                    t = self.pick_type(UNLIMITED if (last and self.o.allow_greedy) else DYNAMIC)
                 members.append(Member(mn, t))
                 stiff = max(stiff, FIXED if t in NUMERIC else self.stiff[t])
             elif kind == OPT:
